@@ -186,7 +186,10 @@ def execute(scenario: Dict[str, Any], sched_spec: Optional[Dict[str, Any]] = Non
                     time_resolution=cfg.get("time_resolution", 1.0),
                     debug=cfg.get("debug", False),
                     cache=cfg.get("cache", True),
-                    max_loop_iterations=cfg.get("mli", 100),
+                    # (mli_late: the bound is assigned to the public attribute after the simulators
+                    # have been started, instead of being passed to the constructor)
+                    max_loop_iterations=(cfg.get("mli", 100) if not cfg.get("mli_late") else
+                                         (7 if cfg.get("mli", 100) != 7 else 9)),
                     asyncio_loop=loop,
                     skip_greetings=True,
                 )
@@ -345,6 +348,8 @@ def _drive(world, scenario, run, res, hooks):
     res.connects = [verdicts[i] for i in range(len(conns))]
     if cfg.get("stop_on_connect_error", False) and any(v[0] != "ok" for v in res.connects):
         return ("connect_error",)
+    if cfg.get("mli_late"):
+        world.max_loop_iterations = cfg.get("mli", 100)
     if hooks and hooks.get("before_run"):
         hooks["before_run"](run, world)
     if cfg.get("no_run"):
